@@ -1,0 +1,82 @@
+//go:build verif
+
+package validation
+
+// Read-only accessors for the C08 verification harness (/verif/harness/c08).
+
+import (
+	pr "github.com/benoitkugler/webrender/css/properties"
+)
+
+// VerifC08NameSets reports membership of a (lower-cased) declaration name in the
+// notPrintMedia, proprietary and unstable sets.
+func VerifC08NameSets(name string) (notPrint, isProprietary, isUnstable bool) {
+	_, notPrint = notPrintMedia[name]
+	_, isProprietary = proprietary[name]
+	_, isUnstable = unstable[name]
+	return
+}
+
+// VerifC08Supported reports whether a validator is registered for prop.
+func VerifC08Supported(prop pr.KnownProp) bool {
+	_, ok := allValidators[prop]
+	return ok
+}
+
+// VerifC08FlexGrowShrink exposes _flexGrowShrink on one token.
+func VerifC08FlexGrowShrink(token Token) (pr.Fl, bool) { return _flexGrowShrink([]Token{token}) }
+
+// VerifC08IsFlexBasis exposes `flexBasis([]Token{token}, "") != nil`.
+func VerifC08IsFlexBasis(token Token) bool { return flexBasis([]Token{token}, "") != nil }
+
+type verifC08Generic struct {
+	names   []pr.KnownProp
+	wrapped beforeGeneric
+}
+
+// the generic expanders whose wrapped function the harness observes (must mirror `expanders`)
+var verifC08Generics = map[pr.Shortand]verifC08Generic{
+	pr.SColumnRule:      {[]pr.KnownProp{pr.PColumnRuleWidth, pr.PColumnRuleColor, pr.PColumnRuleStyle}, _expandBorderSide},
+	pr.SOutline:         {[]pr.KnownProp{pr.POutlineWidth, pr.POutlineColor, pr.POutlineStyle}, _expandBorderSide},
+	pr.SBorderTop:       {[]pr.KnownProp{pr.PBorderTopWidth, pr.PBorderTopColor, pr.PBorderTopStyle}, _expandBorderSide},
+	pr.SBorderRight:     {[]pr.KnownProp{pr.PBorderRightWidth, pr.PBorderRightColor, pr.PBorderRightStyle}, _expandBorderSide},
+	pr.SBorderBottom:    {[]pr.KnownProp{pr.PBorderBottomWidth, pr.PBorderBottomColor, pr.PBorderBottomStyle}, _expandBorderSide},
+	pr.SBorderLeft:      {[]pr.KnownProp{pr.PBorderLeftWidth, pr.PBorderLeftColor, pr.PBorderLeftStyle}, _expandBorderSide},
+	pr.SColumns:         {[]pr.KnownProp{pr.PColumnWidth, pr.PColumnCount}, _expandColumns},
+	pr.STextDecoration:  {[]pr.KnownProp{pr.PTextDecorationLine, pr.PTextDecorationColor, pr.PTextDecorationStyle}, _expandTextDecoration},
+	pr.SFlexFlow:        {[]pr.KnownProp{pr.PFlexDirection, pr.PFlexWrap}, _expandFlexFlow},
+	pr.SWordWrap:        {[]pr.KnownProp{pr.POverflowWrap}, _expandWordWrap},
+	pr.SPageBreakAfter:  {[]pr.KnownProp{pr.PBreakAfter}, _expandPageBreakBeforeAfter},
+	pr.SPageBreakBefore: {[]pr.KnownProp{pr.PBreakBefore}, _expandPageBreakBeforeAfter},
+	pr.SPageBreakInside: {[]pr.KnownProp{pr.PBreakInside}, _expandPageBreakInside},
+	pr.STextAlign:       {[]pr.KnownProp{pr.PTextAlignAll, pr.PTextAlignLast}, _expandTextAlign},
+	pr.SLineClamp:       {[]pr.KnownProp{pr.PMaxLines, pr.PContinue, pr.PBlockEllipsis}, _expandLineClamp},
+	pr.SListStyle:       {[]pr.KnownProp{pr.PListStyleType, pr.PListStylePosition, pr.PListStyleImage}, _expandListStyle},
+}
+
+// VerifC08GenericNames returns the longhand names of a generic expander observed by the harness.
+func VerifC08GenericNames(sh pr.Shortand) ([]string, bool) {
+	g, ok := verifC08Generics[sh]
+	if !ok {
+		return nil, false
+	}
+	out := make([]string, len(g.names))
+	for i, n := range g.names {
+		out[i] = n.String()
+	}
+	return out, true
+}
+
+// VerifC08Wrapped runs the function wrapped by genericExpander for sh.
+func VerifC08Wrapped(sh pr.Shortand, tokens []Token) (names []string, toks [][]Token, err error) {
+	g := verifC08Generics[sh]
+	res, err := g.wrapped("", sh, tokens)
+	if err != nil {
+		return nil, nil, err
+	}
+	for _, nt := range res {
+		names = append(names, nt.name.String())
+		toks = append(toks, nt.tokens)
+	}
+	return names, toks, nil
+}
